@@ -54,6 +54,8 @@ def run_one(seed, tape, opts):
                 for _ in range(2))
     w = cc.setup(tape, opts, relay_ok=False, expected=exp)
     sim = w.sim
+    if tape.choose(2, "greeter") == 0:
+        cc.install_greeter(w, tape)
     listeners_first = tape.choose(3, "listen_late") != 0
     wl = cc.Workload(w, tape, max_subs=3, max_ops=12,
                      listen_late=not listeners_first)
